@@ -59,7 +59,10 @@ def roundtrip_case(p: list, indent: int, ctx: str) -> dict:
         res = impl_compile(src)
         pick = lambda ops: ops[0][0]["params"][0]  # noqa: E731
     elif ctx in ("arg_ssbs", "lang_ssbs"):
-        src = f"def 0 {{\n{pad}op({text});\n}}\n"
+        # (further ops with language strings and position marks of their own follow: a parameter is not what the last
+        # literal of the file says)
+        src = f"def 0 {{\n{pad}op({text});\n{pad}other({{english=\"later\", german=\"spaeter\"}}, Position<'later', 9, 9.5>);\n" \
+              f"{pad}third({{english=\"last\"}});\n}}\n"
         res = impl_ssbs_compile(src)
         pick = lambda ops: ops[0][0]["params"][0]  # noqa: E731
     elif ctx == "menu":
@@ -315,7 +318,7 @@ def main() -> None:
     others = [["i", v] for v in [0, 1, -1, 255, -32768, 2 ** 70, -(10 ** 30)]] + \
              [["f", v] for v in ["1.5", "-0.5", "0.0", "12.0034", "-12.34", "100.10", "-0.0034"]] + \
              [["c", v] for v in ["CONST", "$VAR", "_x9", "$a_B"]] + \
-             [["p", n, xo, yo, xr, yr] for n in ["m", "mark one", "it's", 'q"', "a\\b", ""] for xo in [0, 1, 2, 3, 4] for yo in [0, 2]
+             [["p", n, xo, yo, xr, yr] for n in ["m", "mark one", "it's", 'q"', "a\\b", "", "two\nlines", "back\\n", "both ' and \""] for xo in [0, 1, 2, 3, 4] for yo in [0, 2]
               for xr, yr in [(0, 0), (5, 12), (-3, 7)]]
     for p in others:
         for ctx in ("arg", "arg_ssbs"):
@@ -352,6 +355,9 @@ def main() -> None:
             okname = all(c not in p[1] for c in "'\"\\\n")
             if p[2] not in (0, 2) or p[3] not in (0, 2):
                 sig = "position mark offset other than 0 and 2"
+            elif not single_exact(p[1]):
+                # the name of a mark is a one-line literal: a name without an exact one-line form is the recorded finding
+                sig = "string without an exact literal form"
             else:
                 sig = f"posmark:name-" + ("plain" if okname else "special")
             what = f"position mark {p!r} " + (f"comes back as {out['back']!r}" if out["ok"] else f"is rejected ({out.get('err')})")
